@@ -164,7 +164,19 @@ class Body:
             neg = False
             truth = None
             for _ in range(8):
+                if o["k"] == "const" and o.get("val") in (0, 1, True, False) and o.get("t") == "bool":
+                    truth = bool(o["val"])      # a flag parameter of an inlined helper, bound to a literal at this call site
+                    break
                 if o["k"] not in ("copy", "move") or o["p"].get("proj"):
+                    break
+                if self.is_arg(o["p"]["l"]):
+                    break
+                ds_ = self.whole_defs(o["p"]["l"])
+                if ds_ and len(ds_) == len(self.defs.get(o["p"]["l"], ())) and all(
+                        d_[0] == "stmt" and d_[3]["k"] == "assign" and d_[3]["rv"]["k"] == "use" and d_[3]["rv"]["op"]["k"] == "const"
+                        and d_[3]["rv"]["op"].get("t") == "bool" for d_ in ds_) and len(set(bool(d_[3]["rv"]["op"].get("val")) for d_ in ds_)) == 1 \
+                        and self.locals[o["p"]["l"]]["ty"].get("s") == "bool" and self.locals[o["p"]["l"]].get("name"):
+                    truth = bool(ds_[0][3]["rv"]["op"].get("val"))
                     break
                 d = self.single_def(o["p"]["l"])
                 if not d:
@@ -402,6 +414,9 @@ class Body:
             if l in cand:
                 return (l, neg)
             d = self.single_def(l)
+            if d and d[0] == "call" and (callee_path(d[3]) or "") in PASS_THROUGH and d[3]["args"]:
+                o = d[3]["args"][0]      # likely(..) / unlikely(..)
+                continue
             if not d or d[0] != "stmt":
                 return None
             rv = d[3]["rv"]
